@@ -10,6 +10,8 @@ import (
 	"net/netip"
 	"runtime"
 	"sort"
+	"sync"
+	"time"
 
 	"github.com/jech/storrent/config"
 	"github.com/jech/storrent/hash"
@@ -86,6 +88,56 @@ type world struct {
 	out    *Out
 	step   int
 	base   int
+	// pieces that are full of (corrupt) data and whose hash is being computed: the finaliser is parked at the
+	// Finalise.hash yield point of the store
+	hashing map[int]*hashingPiece
+	hmu     sync.Mutex
+}
+
+type hashingPiece struct {
+	arrived, release, done chan struct{}
+	passed                 bool
+}
+
+// startHashing fills piece i with data whose first block is corrupt and parks its finaliser in the middle of the hash.
+func (w *world) startHashing(i int) {
+	pl := int(w.ps.PieceLength(uint32(i)))
+	for b := 0; b < pl; b += CS {
+		l := min(CS, pl-b)
+		data := content.Range(w.seed, int64(i)*int64(w.psize)+int64(b), l)
+		if b == 0 {
+			data[3] ^= 0x5a
+		}
+		w.ps.AddData(uint32(i), uint32(b), data, 1)
+	}
+	h := &hashingPiece{arrived: make(chan struct{}), release: make(chan struct{}), done: make(chan struct{})}
+	w.hmu.Lock()
+	w.hashing[i] = h
+	w.hmu.Unlock()
+	go func() {
+		w.ps.Finalise(uint32(i), hash.Hash(w.hashes[i]))
+		close(h.done)
+	}()
+	select {
+	case <-h.arrived:
+	case <-h.done:
+	case <-time.After(3 * time.Second):
+	}
+}
+
+func (w *world) stopHashing(i int) {
+	w.hmu.Lock()
+	h := w.hashing[i]
+	delete(w.hashing, i)
+	w.hmu.Unlock()
+	if h == nil {
+		return
+	}
+	close(h.release)
+	select {
+	case <-h.done:
+	case <-time.After(3 * time.Second):
+	}
 }
 
 func (w *world) viol(key, what string) {
@@ -95,6 +147,7 @@ func (w *world) viol(key, what string) {
 }
 
 func (w *world) verify(i int) {
+	w.stopHashing(i) // the hash fails, the piece is empty again
 	pl := int(w.ps.PieceLength(uint32(i)))
 	for b := 0; b < pl; b += CS {
 		l := pl - b
@@ -225,8 +278,38 @@ func Replay(in []byte) any {
 	w.ps = &piece.Pieces{}
 	w.ps.MetadataComplete(uint32(w.psize), w.length)
 	w.hashes = content.PieceHashes(w.seed, w.length, int64(w.psize))
+	w.hashing = map[int]*hashingPiece{}
+	piece.VerifYield = func(point string, index uint32) {
+		w.hmu.Lock()
+		h := w.hashing[int(index)]
+		stop := h != nil && point == "Finalise.hash" && !h.passed
+		if stop {
+			h.passed = true
+		}
+		w.hmu.Unlock()
+		if stop {
+			close(h.arrived)
+			<-h.release
+		}
+	}
+	defer func() {
+		for i := 0; i < w.ps.Num(); i++ {
+			w.stopHashing(i)
+		}
+		piece.VerifYield = nil
+	}()
+	isVerified := map[int]bool{}
 	for _, i := range sc.Steps[0].Verified {
 		w.verify(i)
+		isVerified[i] = true
+	}
+	if sc.ID%2 == 1 {
+		// "pieces becoming available": what is not verified at the start is full and in the middle of its hash
+		for i := 0; i < w.ps.Num(); i++ {
+			if !isVerified[i] {
+				w.startHashing(i)
+			}
+		}
 	}
 	w.base = peer.NumUnchoking()
 	for n := range sc.Steps[0].CanFast {
